@@ -91,7 +91,7 @@ func check(c Case) (res result, err error) {
 	res.out = string(out)
 	res.logLines = strings.Count(in.Obs, "\n  ")
 	res.rewritten = stripInsignificant(c.Src) != stripInsignificant(res.out)
-	o, e := jsrun.Default.Run(jsrun.Req{Goal: c.Goal, Src: res.out, Probes: c.Probes, Predef: c.Predef})
+	o, e := jsrun.Default.RunPatient(jsrun.Req{Goal: c.Goal, Src: res.out, Probes: c.Probes, Predef: c.Predef})
 	if e != nil {
 		return res, fmt.Errorf("HARNESS: %v", e)
 	}
